@@ -68,19 +68,26 @@ def handle (op : String) (j : Json) : Except String Json := do
           if !okVal v then throw "incoming value breaks the representation invariant"
           pure (some v)
         | .error _ => pure none
+      let sw := match o.getObjVal? "swallow" with
+        | .ok (Json.bool b) => b
+        | _ => false
       match name, add? with
-      | "merge", some a => pure (Op.merge a)
-      | "defaults", some a => pure (Op.defaults a)
-      | "step-merge", a => pure (Op.step false a)
-      | "step-default", a => pure (Op.step true a)
+      | "merge", some a => pure (Op.merge a, sw)
+      | "defaults", some a => pure (Op.defaults a, sw)
+      | "step-merge", a => pure (Op.step false a, sw)
+      | "step-default", a => pure (Op.step true a, sw)
       | _, _ => throw s!"bad op {name}"
-    match runOps (fuelOf j) root ops with
+    -- `runOpsS`: an operation with "swallow": true that fails is recorded and the sequence goes on with the
+    -- context it left (without any such flag this is `runOps`: theorem `runOpsS_unflagged`)
+    match runOpsS (fuelOf j) root ops with
     | .error (i, e) =>
       if e.name == "OutOfDomain" then .error ("out of domain: " ++ e.msg)
       else .ok (Json.mkObj [("err", e.toJson), ("at", Json.num (JsonNumber.fromNat i))])
-    | .ok root' =>
+    | .ok (root', errs) =>
       if !FmtHeap.keysHashable (.dict root') then .error "out of domain: result has an unhashable key or set member"
-      else .ok (Json.mkObj [("ok", Json.mkObj [("ctx", (Val.dict root').toJson), ("trace", traceJ [])])])
+      else .ok (Json.mkObj [("ok", Json.mkObj [("ctx", (Val.dict root').toJson), ("trace", traceJ []),
+        ("errs", Json.arr (errs.map fun (ie : Nat × Exc) =>
+          Json.arr #[Json.num (JsonNumber.fromNat ie.1), Json.str ie.2.name]).toArray)])])
   | "seqHeap" =>
     -- heap level: {cells, root, ops: [{op, add?: ref}…], fuel?} → {ok: {cells, n0}} | {err, at}
     let cells ← (← (← j.getObjVal? "cells").getArr?).toList.mapM OpHeap.cellOfJson
